@@ -223,8 +223,40 @@ func checkC12(c *h.Check) {
 			add(fmt.Sprintf("C12/two-selections/order=%d/ptr=%d", order, ptr), twoSelectionsProgram(order, ptr == 1))
 		}
 	}
+	// a struct with a field of type *T next to a field of type T: from a pointer parent the second one also yields *T.
+	// Each selected type is read from the field that was named, never from its neighbour: both named means two
+	// sources for *T (rejected), one named means that one.
+	for v, names := range [][]string{{"Fallback", "Limits"}, {"Limits", "Fallback"}, {"Fallback"}, {"Limits"}} {
+		for ptrParent := 0; ptrParent < 2; ptrParent++ {
+			b := ir.NewBuilder()
+			p := b.Root
+			lim := b.Leaf(p, "Limits")
+			cfgT := b.Agg(p, "Config", &ir.Field{Name: "Fallback", T: ir.Ptr(lim)}, &ir.Field{Name: "Limits", T: lim})
+			var parent *ir.Type = cfgT
+			if ptrParent == 1 {
+				parent = ir.Ptr(cfgT)
+			}
+			r := b.Leaf(p, "R")
+			var deps []*ir.Type
+			for _, n := range names {
+				if n == "Fallback" {
+					deps = append(deps, ir.Ptr(lim))
+				} else if len(names) == 2 || ptrParent == 0 {
+					deps = append(deps, lim)
+				} else {
+					deps = append(deps, ir.Ptr(lim)) // the pointer to the field Limits
+				}
+			}
+			inj := &ir.Injector{Name: "Init", Out: r, Items: []*ir.Item{
+				ir.FuncItem(&ir.Func{Pkg: p, Name: "PS", Out: parent}),
+				ir.FieldsOfItem(cfgT, ptrParent == 1, names...),
+				ir.FuncItem(&ir.Func{Pkg: p, Name: "PR", Params: deps, Out: r}),
+			}}
+			add(fmt.Sprintf("C12/fieldsof-ptr-and-value-field/names=%d/ptrparent=%d", v, ptrParent), &ir.Program{Root: p, Injectors: []*ir.Injector{inj}})
+		}
+	}
 	results := c.JudgeAll(cases)
-	stdCoverage(c, cases, results, "four injectors in one package selecting different same-typed fields of one struct; 6 struct shapes (exported/unexported/embedded/prevented fields; tagged fields; pairs and triples of names differing only in letter case) x wire.Struct with every subset of names, \"*\", an unknown name, \"*\" followed by an unknown or a known name x consumers {S, *S, both}; wire.FieldsOf with every non-empty subset and an unknown name x {new(S), new(*S)} x struct {provided by a function, handed in as an injector argument} x consumers of {field type, pointer to field, pointer plus parent with an aliasing probe that compares addresses and writes through the pointer}. Oracle: prevented/unknown names rejected; accepted programs run and the constructed struct is described field by field (selected fields carry the designated identities, all others zero); selected fields equal the parent's fields. Distinct = distinct rendered source.")
+	stdCoverage(c, cases, results, "a struct with a *T field next to a T field selected from a value and from a pointer parent (both: two sources for *T; one: that one); four injectors in one package selecting different same-typed fields of one struct; 6 struct shapes (exported/unexported/embedded/prevented fields; tagged fields; pairs and triples of names differing only in letter case) x wire.Struct with every subset of names, \"*\", an unknown name, \"*\" followed by an unknown or a known name x consumers {S, *S, both}; wire.FieldsOf with every non-empty subset and an unknown name x {new(S), new(*S)} x struct {provided by a function, handed in as an injector argument} x consumers of {field type, pointer to field, pointer plus parent with an aliasing probe that compares addresses and writes through the pointer}. Oracle: prevented/unknown names rejected; accepted programs run and the constructed struct is described field by field (selected fields carry the designated identities, all others zero); selected fields equal the parent's fields. Distinct = distinct rendered source.")
 	c.Coverage["model_verdict_classes"] = kinds.summary()
 	sampleCase(c, cases, results)
 	if kinds["model:accept"] < 50 || kinds["model:bad-field"] < 20 {
